@@ -75,6 +75,12 @@ pub struct FixtureDatabase {
     /// Reverse index: file path -> fixture names defined in that file.
     /// Used for efficient cleanup when a file is re-analyzed.
     pub file_definitions: Arc<DashMap<PathBuf, HashSet<String>>>,
+    /// What each definition of a file binds, by definition line: the indentation of that
+    /// line and the name of the Python function (or assignment target). Recorded with the
+    /// definition, because the text it was read from may be gone when it is needed (the
+    /// definitions of the last valid version stay in effect while the buffer does not parse).
+    pub(crate) definition_bindings:
+        Arc<DashMap<PathBuf, std::collections::HashMap<usize, (usize, String)>>>,
     /// Map from file path to fixtures used in that file.
     pub usages: Arc<DashMap<PathBuf, Vec<FixtureUsage>>>,
     /// Reverse index: fixture name -> (file_path, usage) pairs.
@@ -139,6 +145,7 @@ impl FixtureDatabase {
         Self {
             definitions: Arc::new(DashMap::new()),
             file_definitions: Arc::new(DashMap::new()),
+            definition_bindings: Arc::new(DashMap::new()),
             usages: Arc::new(DashMap::new()),
             usage_by_fixture: Arc::new(DashMap::new()),
             file_cache: Arc::new(DashMap::new()),
